@@ -181,7 +181,7 @@ export async function check(group, records) {
 
 export function meta({ tier }) {
   return {
-    rule: `Prop maps of 1-5 optional props (identifier, quoted, hyphenated, numeric, $ keys; value-typed or Function-typed) x per-prop default form (none, key-value with ${Object.keys(VAL_FORMS).length} value-expression kinds or ${Object.keys(FN_FORMS).length} function kinds, getter, method, async method, shorthand) x key spelling in the default (as in the type / the other spelling / computed literal) x extra keys x whole-default form (static literal, empty, identifier, literal with spread, computed identifier key, computed call key) x arrow/function setup. ${tier === 'quick' ? 15000 : 400000} cases. For every declared prop the default Vue would resolve (port of resolvePropValue, after the real mergeDefaults algorithm when the output calls it) is compared with the value of the written default object evaluated in the same module (functions compared by what they return).`,
+    rule: `Prop maps of 1-5 optional or required props (identifier, quoted, hyphenated, numeric, $ keys; value-typed or Function-typed) x per-prop default form (none, key-value with ${Object.keys(VAL_FORMS).length} value-expression kinds or ${Object.keys(FN_FORMS).length} function kinds, getter, method, async method, shorthand; Function types also unioned with other types or any/unknown; expressions and shorthand bindings that read constants declared AFTER the call; a repeated key) x key spelling in the default (as in the type / the other spelling / computed literal) x extra keys x whole-default form (static literal, empty, identifier, literal with spread, computed identifier key, computed call key) x arrow/function setup. ${tier === 'quick' ? 15000 : 400000} cases. For every declared prop the default Vue would resolve (port of resolvePropValue, after the real mergeDefaults algorithm when the output calls it) is compared with the value of the written default object evaluated in the same module (functions compared by what they return).`,
     assumptions: ['function-valued defaults on props that are not Function-typed are not generated (a TS type error)', 'factories may be called any number of times'],
   };
 }
